@@ -374,9 +374,9 @@ class StandardBaseContext(Context,
                 if cancellation < extraprec or ctx._fixed_precision:
                     break
                 extraprec += min(ctx.prec, cancellation)
-            return s
         finally:
             ctx.prec = prec
+        return +s
 
     def mul_accurately(ctx, factors, check_step=1):
         prec = ctx.prec
@@ -406,9 +406,9 @@ class StandardBaseContext(Context,
                 if cancellation < extraprec or ctx._fixed_precision:
                     break
                 extraprec += min(ctx.prec, cancellation)
-            return s
         finally:
             ctx.prec = prec
+        return +s
 
     def power(ctx, x, y):
         r"""Converts `x` and `y` to mpmath numbers and evaluates
